@@ -1,7 +1,7 @@
 """C33 - set_const (state-restoration and batched-write clauses)."""
 
 from ..report import Finding
-from ..rules import r_batch, r_bind, r_live, r_pair, r_world
+from ..rules import r_batch, r_bind, r_live, r_pair, r_ref, r_world
 from . import common
 from .c12 import state_keys
 
@@ -23,7 +23,9 @@ def run(db, res, tier):
   res.floor("batched accesses in set_const", nb, 34)
   n, same, temp, other = r_bind.check_bindings(res, lcs)
   res.floor("set_const bindings", n, 65)
-  res.rule_text = "R-PAIR: set_const_0 / set_const_spring / set_const restore every integration-state field they overwrite, on every path and as the last write; with restore=True every Data field computed at the temporary state is recomputed after the restore; R-LIVE.4: the scratch vectors that the per-tendon / per-actuator / per-body loops fill by sparse-column scatter and then solve with are cleared inside each iteration before the scatter; R-BATCH: every batched field read or written by the set_const kernels is indexed by the thread's batch index modulo that field's own size; R-BIND: launch bindings conform"
+  n1, n2 = r_ref.check_reference_fields(res, db.launch_ctxs())
+  res.floor("reference-offset decode sites (package-wide)", n1, 4)
+  res.rule_text = "R-REF.1: every reference offset field written by set_const as `X - base[idx]` is decoded by the step kernels against one of the same base cells; R-PAIR: set_const_0 / set_const_spring / set_const restore every integration-state field they overwrite, on every path and as the last write; with restore=True every Data field computed at the temporary state is recomputed after the restore; R-LIVE.4: the scratch vectors that the per-tendon / per-actuator / per-body loops fill by sparse-column scatter and then solve with are cleared inside each iteration before the scatter; R-BATCH: every batched field read or written by the set_const kernels is indexed by the thread's batch index modulo that field's own size; R-BIND: launch bindings conform"
   res.explanation = "Decides the state-restoration and batched-indexing clauses of C33. Not decided: that the derived values equal mj_setConst's (numeric)."
   res.extra["analysed"] = common.analysed(db, lcs)
   res.assumptions += ["tabled binding exception qpos0 <- m.qpos_spring in set_const_spring"]
